@@ -10,6 +10,7 @@ import (
 	"crypto/sha256"
 	"fmt"
 	"io"
+	"runtime"
 	"strings"
 	"sync"
 	"sync/atomic"
@@ -146,11 +147,41 @@ func checkHistory(wl Workload, events []Event) (porcupine.CheckResult, string) {
 
 var inconclusive int64
 
+// A registry that deadlocks never returns: every concurrent execution runs
+// under a watchdog, and a hang is reported with the goroutine dump. Once one
+// case has hung, its goroutines are still there, so later cases of this
+// process are skipped.
+var hangSeen atomic.Bool
+
+const hangAfter = 90 * time.Second
+
+func watchdog(f func()) (hung bool, dump string) {
+	done := make(chan struct{})
+	go func() { defer close(done); f() }()
+	select {
+	case <-done:
+		return false, ""
+	case <-time.After(hangAfter):
+		buf := make([]byte, 1<<20)
+		n := runtime.Stack(buf, true)
+		hangSeen.Store(true)
+		return true, string(buf[:n])
+	}
+}
+
 func runWorkload(wl Workload, v *vt.V) {
 	events := wl.Recorded
 	if len(events) == 0 {
+		if hangSeen.Load() {
+			return
+		}
 		var err error
-		events, err = execute(wl)
+		hung, dump := watchdog(func() { events, err = execute(wl) })
+		if hung {
+			v.Failf("hang", "%d goroutines: the workload did not finish within %v (deadlock?); goroutines:\n%.6000s", len(wl.Threads), hangAfter, dump)
+			vt.SaveFailureNow(propWorkload, wl, v)
+			return
+		}
 		if err != nil {
 			v.Failf("harness", "%v", err)
 			return
@@ -272,6 +303,17 @@ type Directed struct {
 var ctx = context.Background()
 
 func runDirected(d Directed, v *vt.V) {
+	if hangSeen.Load() {
+		return
+	}
+	hung, dump := watchdog(func() { runDirected1(d, v) })
+	if hung {
+		v.Failf("hang", "family %s did not finish within %v (deadlock?); goroutines:\n%.6000s", d.Family, hangAfter, dump)
+		vt.SaveFailureNow(propDirected, d, v)
+	}
+}
+
+func runDirected1(d Directed, v *vt.V) {
 	switch d.Family {
 	case "tag-flip":
 		// a tag that at every instant points at an existing manifest is never reported missing
@@ -317,7 +359,7 @@ func runDirected(d Directed, v *vt.V) {
 			v.Failf("tag-reported-missing", "tag moved between two manifests, the old one deleted each time, %d iterations, 4 readers: %v", d.Iters, x)
 			return
 		}
-	case "commit-vs-write", "commit-vs-cancel", "resume-vs-write":
+	case "commit-vs-write", "commit-vs-cancel", "resume-vs-write", "commit-vs-wrong-commit", "commit-vs-write-commit":
 		mem := ocimem.New()
 		x := bytes.Repeat([]byte("x"), d.Size)
 		y := []byte("YYYY")
@@ -335,6 +377,7 @@ func runDirected(d Directed, v *vt.V) {
 			var wg sync.WaitGroup
 			var commitErr, otherErr error
 			var desc ociregistry.Descriptor
+			secondCommitted := false
 			wg.Add(2)
 			go func() {
 				defer wg.Done()
@@ -355,12 +398,36 @@ func runDirected(d Directed, v *vt.V) {
 				switch d.Family {
 				case "commit-vs-cancel":
 					otherErr = w2.Cancel()
+				case "commit-vs-wrong-commit":
+					_, otherErr = w2.Commit(digest.FromBytes([]byte("something else")))
+				case "commit-vs-write-commit":
+					if _, otherErr = w2.Write(y); otherErr == nil {
+						xy := append(append([]byte{}, x...), y...)
+						if _, err2 := w2.Commit(digest.FromBytes(xy)); err2 == nil {
+							// a second successful commit: its digest must hold X||Y
+							rd, err := mem.GetBlob(ctx, repo, digest.FromBytes(xy))
+							if err != nil {
+								otherErr = fmt.Errorf("second commit reported success but its blob is missing: %v", err)
+							} else {
+								data, _ := io.ReadAll(rd)
+								rd.Close()
+								if !bytes.Equal(data, xy) {
+									otherErr = fmt.Errorf("second commit stored %d bytes, want %d", len(data), len(xy))
+								}
+							}
+							secondCommitted = true
+						}
+						mem.DeleteBlob(ctx, repo, digest.FromBytes(xy))
+					}
 				default:
 					_, otherErr = w2.Write(y)
 				}
 			}()
 			wg.Wait()
-			_ = otherErr
+			if d.Family == "commit-vs-write-commit" && otherErr != nil && secondCommitted {
+				v.Failf("committed-blob-missing", "%s, iteration %d: %v", d.Family, i, otherErr)
+				return
+			}
 			rd, gerr := mem.GetBlob(ctx, repo, dx)
 			if commitErr == nil {
 				if gerr != nil {
@@ -397,11 +464,15 @@ func runDirected(d Directed, v *vt.V) {
 	v.NonTrivial(fmt.Sprintf("%s/%d/%d", d.Family, d.Iters, d.Size))
 }
 
-var propDirected = &vt.Prop[Directed]{
-	ID:   "C08",
-	Name: "DirectedRaces",
-	Rule: "directed workload families aimed at the registry's two-step operations, each a loop of racing goroutines under -race: tag-flip (a tag moved back and forth between two manifests, the old one deleted each time, while 4 readers GetTag: never missing, never foreign bytes), commit-vs-write / resume-vs-write (one goroutine commits digest(X) while another writes to the same session: a successful commit stores exactly X with the right size, a failed one stores nothing), commit-vs-cancel (a commit that reports success leaves the blob retrievable; nothing is ever stored under the empty digest); distinct = (family, iterations, size)",
-	Run:  runDirected,
+var propDirected *vt.Prop[Directed]
+
+func init() {
+	propDirected = &vt.Prop[Directed]{
+		ID:   "C08",
+		Name: "DirectedRaces",
+		Rule: "directed workload families aimed at the registry's two-step operations, each a loop of racing goroutines under -race: tag-flip (a tag moved back and forth between two manifests, the old one deleted each time, while 4 readers GetTag: never missing, never foreign bytes), commit-vs-write / resume-vs-write (one goroutine commits digest(X) while another writes to the same session: a successful commit stores exactly X with the right size, a failed one stores nothing), commit-vs-cancel / commit-vs-wrong-commit / commit-vs-write-commit (every commit that reports success leaves exactly its content retrievable under its digest; nothing is ever stored under the empty digest); distinct = (family, iterations, size)",
+		Run:  runDirected,
+	}
 }
 
 func TestPropDirected(t *testing.T) {
@@ -413,7 +484,7 @@ func TestPropDirected(t *testing.T) {
 	vt.Enumerate(t, propDirected, false, func(yield func(Directed) bool) {
 		k := 0
 		for rep := 0; rep < 2; rep++ {
-			for _, f := range []string{"tag-flip", "commit-vs-write", "commit-vs-cancel", "resume-vs-write"} {
+			for _, f := range []string{"tag-flip", "commit-vs-write", "commit-vs-cancel", "resume-vs-write", "commit-vs-wrong-commit", "commit-vs-write-commit"} {
 				for _, size := range []int{4, 4096, 1 << 20} {
 					if f == "tag-flip" && size != 4 {
 						continue
